@@ -95,3 +95,32 @@ Print Assumptions C26_base_cost_ge_1.
 Theorem C26_tables_wellformed : defaults_wellformed = true /\ base_costs_ok = true.
 Proof. exact (conj defaults_wellformed_true base_costs_ok_true). Qed.
 Print Assumptions C26_tables_wellformed.
+
+(* a sequence of charges c1, c2, ... (an instruction that charges several times): if every
+   charge is affordable when it is made the result is that of one charge of the sum; otherwise
+   execution stops with OutOfGas, context gas 0 and global gas reduced by the context gas the
+   sequence started with *)
+Theorem C26_charge_sequence :
+  forall (l : list N) (s : gstate),
+    cgas s + sum (saved s) <= ggas s -> ggas s < U64 ->
+    run s (map Charge l) =
+    if oog_justified (cgas s) l then GOutOfGas (oog_state s)
+    else GOk {| cgas := cgas s - sum l; ggas := ggas s - sum l; saved := saved s |}.
+Proof. exact run_charge_sequence. Qed.
+Print Assumptions C26_charge_sequence.
+
+(* ... and that happens exactly at the first charge that exceeds what is left *)
+Theorem C26_out_of_gas_point :
+  forall (l : list N) (cg : N),
+    oog_justified cg l = true <->
+    exists xs y zs, l = (xs ++ y :: zs)%list /\ sum xs <= cg /\ cg < sum xs + y.
+Proof. exact oog_justified_iff. Qed.
+Print Assumptions C26_out_of_gas_point.
+
+(* the full charge sequences extracted from the handlers and their helpers on this run are
+   the specified ones (which cost, on which quantity, under which condition) *)
+Theorem C26_sequences_are_spec :
+  (forall (op : N) (s : cseq), In (op, s) spec_gas_seq -> nlookup op gas_seq = Some s) /\
+  gas_storage = spec_gas_storage /\ seq_cover_ok = true.
+Proof. exact (conj gen_seq_is_spec (conj gen_storage_is_spec seq_cover_ok_true)). Qed.
+Print Assumptions C26_sequences_are_spec.
